@@ -226,3 +226,52 @@ Proof.
   destruct (FP.Prim2B bs) as [sb|sb| |sb mb eb Bb]; cbn [B2SF]; try discriminate. intros _.
   destruct (FP.Prim2B f) as [s|s| |s m e B]; cbn; auto.
 Qed.
+
+(* ------------------------------------------------------------ an infinite bin size *)
+(* binsize = +inf (given, or (max - min) / nbin when max - min overflows): a finite difference gives the
+   quotient 0, an overflowed difference gives inf/inf = NaN, i.e. INT64_MIN *)
+Lemma div_posinf f bs : posinf_f bs = true ->
+  (finite_f f = true /\ f2z_trunc (PrimFloat.div f bs) = 0%Z /\ f2z_floor (PrimFloat.div f bs) = 0%Z)
+  \/ (finite_f f = false /\ f2z_trunc (PrimFloat.div f bs) = int64_min /\ f2z_floor (PrimFloat.div f bs) = int64_min).
+Proof.
+  unfold posinf_f, finite_f, f2z_trunc, f2z_floor. rewrite <- !FP.B2SF_Prim2B, FP.div_equiv.
+  destruct (FP.Prim2B bs) as [sb|sb| |sb mb eb Bb]; cbn [B2SF]; try discriminate.
+  destruct sb; [discriminate|]. intros _.
+  destruct (FP.Prim2B f) as [s|s| |s m e B]; cbn; auto.
+Qed.
+
+(* Ok in binsize mode: the bin count trunc(q) + 1 is not negative, so q is finite and below 2^63 *)
+Lemma trunc_not_min q : (0 <= f2z_trunc q + 1)%Z -> finite_f q = true -> 0 <= rv q -> rv q < IZR two63Z.
+Proof.
+  rewrite finite_f_B. unfold rv, f2z_trunc. rewrite <- FP.B2SF_Prim2B.
+  destruct (FP.Prim2B q) as [s|s| |s m e B]; cbn [B2SF B2R is_finite]; try discriminate; intros H _ H0.
+  - unfold two63Z. lra.
+  - destruct s.
+    + exfalso. apply (Rlt_not_le _ _ (F2R_lt_0 radix2 (Float radix2 (cond_Zopp true (Z.pos m)) e) eq_refl)). exact H0.
+    + cbn [cond_Zopp] in *. rewrite mag_floor in H.
+      unfold clamp64, int64_min, int64_max, two63Z in *.
+      destruct ((-9223372036854775808 <=? Zfloor (F2R (Float radix2 (Z.pos m) e))) && (Zfloor (F2R (Float radix2 (Z.pos m) e)) <=? 9223372036854775807))%Z eqn:A; [|lia].
+      apply andb_true_iff in A. destruct A as [_ A]. apply Z.leb_le in A.
+      apply Rlt_le_trans with (IZR (Zfloor (F2R (Float radix2 (Z.pos m) e))) + 1); [apply Zfloor_ub|].
+      rewrite <- plus_IZR. apply IZR_le. lia.
+Qed.
+
+Lemma div_nonfinite f b : finite_f f = false -> finite_f (PrimFloat.div f b) = false.
+Proof.
+  rewrite !finite_f_B, FP.div_equiv.
+  destruct (FP.Prim2B f) as [s|s| |s m e B]; cbn [is_finite]; try discriminate; intros _;
+    destruct (FP.Prim2B b) as [sb|sb| |sb mb eb Bb]; reflexivity.
+Qed.
+
+Lemma trunc_nonfinite q : finite_f q = false -> f2z_trunc q = int64_min.
+Proof. unfold finite_f, f2z_trunc. destruct (Prim2SF q); try discriminate; reflexivity. Qed.
+
+Lemma Prim2B_zero : FP.Prim2B 0%float = B754_zero false.
+Proof. change 0%float with PrimFloat.zero. rewrite FP.zero_equiv. apply FP.Prim2B_B2Prim. Qed.
+
+Lemma pos_finite_or_inf b : PrimFloat.ltb 0 b = true -> finite_f b = true \/ posinf_f b = true.
+Proof.
+  rewrite FP.ltb_equiv, Prim2B_zero, finite_f_B. unfold posinf_f. rewrite <- FP.B2SF_Prim2B.
+  destruct (FP.Prim2B b) as [sb|sb| |sb mb eb Bb]; cbn; auto; try discriminate.
+  destruct sb; cbn; auto; discriminate.
+Qed.
